@@ -179,6 +179,11 @@ func (p *Parser) SkipToTargetToken(target string) error {
 			return err
 		}
 
+		// end of input: the target token never comes
+		if nextT == nil {
+			break
+		}
+
 		if nextT.IsTargetIdentifier(target) {
 			break
 		}
